@@ -198,8 +198,11 @@ Plan generate(Rng &rng, const Opts &opts, uint64_t runIndex)
         }
         keep = opts.f("keep", keep);
         p.cfg["keep"] = keep;
+        // where the process runs and how the client spells its base path (absolute, relative, relative with "./")
+        long cwd = opts.f("cwd", long((graphNo / 3) % 4)), baseMode = opts.f("basemode", long(graphNo % 3));
+        p.cfg["cwd"] = cwd;
         p.steps.push_back(mk(0, "IMPORTER", {strict, 0}));
-        p.steps.push_back(mk(0, "ROOT", {0}));
+        p.steps.push_back(mk(0, "ROOT", {0, baseMode}));
         p.steps.push_back(mk(0, "RESOLVE"));
         p.steps.push_back(mk(0, "FLATTEN"));
         if (slot < long(faults.size())) {
@@ -208,7 +211,7 @@ Plan generate(Rng &rng, const Opts &opts, uint64_t runIndex)
             p.steps.push_back(mk(9, "FS", {f.kind, f.file, f.a, f.b}));
             p.steps.push_back(how == 0 ? mk(0, "IMPORTER", {strict, keep}) : (how == 1 ? mk(0, "CLEAR") : mk(0, "NOP")));
             if (keep == 0) {
-                p.steps.push_back(mk(0, "ROOT", {0}));
+                p.steps.push_back(mk(0, "ROOT", {0, baseMode}));
             }
             p.steps.push_back(mk(0, "RESOLVE"));
             p.steps.push_back(mk(0, "FLATTEN"));
@@ -224,7 +227,7 @@ Plan generate(Rng &rng, const Opts &opts, uint64_t runIndex)
             }
             p.steps.push_back(repair == 0 ? mk(0, "IMPORTER", {strict, keep}) : (repair == 1 ? mk(0, "CLEAR") : mk(0, "NOP")));
             if (keep == 0) {
-                p.steps.push_back(mk(0, "ROOT", {0}));
+                p.steps.push_back(mk(0, "ROOT", {0, baseMode}));
             }
             p.steps.push_back(mk(0, "RESOLVE"));
             p.steps.push_back(mk(0, "FLATTEN"));
@@ -241,6 +244,7 @@ Plan generate(Rng &rng, const Opts &opts, uint64_t runIndex)
     p.cfg["avoid"] = avoid;
     Graph g = graphFor(graphSeed, maxFiles, avoid);
     auto faults = singleFaults(g);
+    p.cfg["cwd"] = opts.f("cwd", long(rng.below(4)));
     long nClients = opts.f("clients", rng.chance(1, 3) ? 2 : 1);
     bool inflight = opts.f("inflight", rng.chance(1, 3) ? 1 : 0) != 0;
     // swarm: enabled fault kinds for this run
@@ -265,7 +269,7 @@ Plan generate(Rng &rng, const Opts &opts, uint64_t runIndex)
         } else {
             p.steps.push_back(mk(int(c), "IMPORTER", {long(rng.below(2))}));
         }
-        p.steps.push_back(mk(int(c), "ROOT", {c == 0 ? 0 : long(rng.below(g.files.size()))}));
+        p.steps.push_back(mk(int(c), "ROOT", {c == 0 ? 0 : long(rng.below(g.files.size())), long(rng.below(3))}));
     }
     long nSteps = rng.range(6, opts.tier == "thorough" ? 36 : 24);
     for (long s = 0; s < nSteps; ++s) {
@@ -280,7 +284,7 @@ Plan generate(Rng &rng, const Opts &opts, uint64_t runIndex)
         } else if (r < 58) {
             p.steps.push_back(mk(task, "IMPORTER", {long(rng.below(2)), long(rng.below(2))}));
         } else if (r < 66) {
-            p.steps.push_back(mk(task, "ROOT", {task == 0 ? 0 : long(rng.below(g.files.size()))}));
+            p.steps.push_back(mk(task, "ROOT", {task == 0 ? 0 : long(rng.below(g.files.size())), long(rng.below(3))}));
         } else if (r < 82 && !enabled.empty()) {
             const Fault &f = enabled[rng.below(enabled.size())];
             if (inflight && rng.chance(1, 2)) {
@@ -307,7 +311,7 @@ Plan generate(Rng &rng, const Opts &opts, uint64_t runIndex)
     p.steps.push_back(mk(9, "FS", {F_RESTORE, -1, 0, 0}));
     p.steps.push_back(rng.chance(1, 2) ? mk(0, "IMPORTER", {long(rng.below(2)), long(rng.below(2))}) : mk(0, "CLEAR"));
     if (rng.chance(2, 3)) {
-        p.steps.push_back(mk(0, "ROOT", {0}));
+        p.steps.push_back(mk(0, "ROOT", {0, long(rng.below(3))}));
     }
     p.steps.push_back(mk(0, "RESOLVE"));
     p.steps.push_back(mk(0, "FLATTEN"));
@@ -331,6 +335,7 @@ struct ImporterState
     ImporterPtr importer;
     bool strict = true;
     std::map<std::string, int> refLibrary; // library key -> version id it holds
+    std::set<std::string> hrefKeys; // keys under which the client stored models itself (URLs as written)
     std::map<std::string, long> refSeq; // library key -> when it entered the library (models that were there before may be linked to what it replaces)
     long seq = 0;
     bool usedSinceClear = false;
@@ -343,6 +348,7 @@ struct Client
     FileSpec rootSpec;
     int rootFile = -1;
     int rootVersion = -1;
+    std::string base; // the base path the client passes to resolveImports(): its root file's directory, spelt absolutely or relative to the working directory
     long answerEpoch = -1; // world epoch at which `answer` was given (-1: none)
     std::string answer; // verdict and issues of this client's last RESOLVE
     bool haveVerdict = false; // a verdict for (root, importer) from the last RESOLVE is still meaningful
@@ -895,6 +901,8 @@ void execute(const Plan &plan, Ctx &ctx)
     World w;
     gVfs = &w.vfs;
     libcellml::verif::openFile = seamOpen;
+    static const char *const cwds[] = {"/w/", "/w/a/", "/w/b/", "/w/a/x/"};
+    w.vfs.cwd = cwds[((plan.c("cwd", 0) % 4) + 4) % 4];
     w.install(graphFor(plan.c("graphseed", 1), plan.c("maxfiles", 5), plan.c("avoid", 0)));
     if (ctx.trace) {
         for (auto &f : w.pristine.files) {
@@ -996,6 +1004,14 @@ void execute(const Plan &plan, Ctx &ctx)
                 return;
             }
             c.rootSpec = v->spec;
+            {
+                std::string rel = relativeDir(w.vfs.cwd, v->spec.dir);
+                long mode = ((s.arg(1) % 3) + 3) % 3;
+                c.base = mode == 0 ? v->spec.dir : (mode == 1 ? rel : "./" + rel);
+                c.rootSpec.rawDir = libraryNormaliseBase(c.base);
+                c.rootSpec.rawDirSet = true;
+                ctx.count(mode == 0 ? "base_path_absolute" : (mode == 1 ? "base_path_relative" : "base_path_relative_with_dot"));
+            }
             c.rootFile = int(file);
             c.rootVersion = v->id;
             ctx.ev("ROOT task " + str(t) + " file " + str(file) + " v" + str(v->id));
@@ -1006,6 +1022,7 @@ void execute(const Plan &plan, Ctx &ctx)
             ++epoch;
             imp.importer->removeAllModels();
             imp.refLibrary.clear();
+            imp.hrefKeys.clear();
             imp.refSeq.clear();
             for (auto &cl : clients) {
                 if (cl.imp == c.imp) {
@@ -1061,6 +1078,7 @@ void execute(const Plan &plan, Ctx &ctx)
                 return;
             }
             imp.refLibrary[href] = id;
+            imp.hrefKeys.insert(href);
             imp.refSeq[href] = ++imp.seq;
             for (auto &cl : clients) {
                 if (cl.imp == c.imp) {
@@ -1088,7 +1106,8 @@ void execute(const Plan &plan, Ctx &ctx)
                     unknownKey = true;
                     continue;
                 }
-                if (key.empty() || key[0] != '/') {
+                libRawAtStart[key] = it->second; // a key is a key: looked up by the URL as written first, by the resolved spelling next
+                if (imp.hrefKeys.count(key) != 0) {
                     hrefLib[key] = it->second;
                     // the key means one file only if every import that writes this URL means that file
                     std::vector<FileSpec> specs {c.rootSpec};
@@ -1113,7 +1132,7 @@ void execute(const Plan &plan, Ctx &ctx)
                     }
                     continue;
                 }
-                std::string np = normalisePath(key);
+                std::string np = w.vfs.absolute(key);
                 libAtStart[np] = it->second;
                 libRawAtStart[key] = it->second;
                 const FileVersion *cur = w.vfs.at(np);
@@ -1142,8 +1161,7 @@ void execute(const Plan &plan, Ctx &ctx)
                 }
             };
             w.vfs.beginCall();
-            std::string base = w.pristine.files[size_t(c.rootFile)].dir;
-            bool real = imp.importer->resolveImports(c.root, base);
+            bool real = imp.importer->resolveImports(c.root, c.base);
             w.vfs.onOpen = nullptr;
             imp.usedSinceClear = true;
             ctx.count("resolve_calls");
@@ -1240,8 +1258,8 @@ void execute(const Plan &plan, Ctx &ctx)
                 absent.tag = "absent";
                 View view = [&](const std::string &np) -> const FileVersion * {
                     if (np.compare(0, 5, "href:") == 0) {
-                        auto hi = hrefLib.find(np.substr(5));
-                        return hi != hrefLib.end() ? &w.vfs.versions[size_t(hi->second)] : nullptr;
+                        auto hi = libRawAtStart.find(np.substr(5));
+                        return hi != libRawAtStart.end() ? &w.vfs.versions[size_t(hi->second)] : nullptr;
                     }
                     if (np.compare(0, 4, "raw:") == 0) {
                         auto ri = libRawAtStart.find(np.substr(4));
